@@ -116,13 +116,25 @@ HasRepeatedSegment(stmts) ==
     \E pos \in 1..Len(ap[i].abs) :
       /\ pos >= ap[i].from /\ pos >= ap[j].from /\ pos <= Len(ap[j].abs)
       /\ SubSeq(ap[i].abs, 1, pos) = SubSeq(ap[j].abs, 1, pos)
-\* some dotted prefix is left and re-entered within one section (the keys sharing it are not adjacent)
-Interleaved(stmts) ==
-  \E i, j, m \in 1..Len(stmts) :
+\* some dotted prefix is left and re-entered (the keys sharing it are not adjacent); ns = sequence of key paths
+InterleavedNames(ns) ==
+  \E i, j, m \in 1..Len(ns) :
     /\ i < m /\ m < j
-    /\ \A x \in i..j : stmts[x].kind = "kv"
-    /\ \E n \in 1..(Len(stmts[i].path) - 1) :
-         /\ n <= Len(stmts[j].path) - 1
-         /\ SubSeq(PathNames(stmts[i]), 1, n) = SubSeq(PathNames(stmts[j]), 1, n)
-         /\ ~(n <= Len(stmts[m].path) - 1 /\ SubSeq(PathNames(stmts[m]), 1, n) = SubSeq(PathNames(stmts[i]), 1, n))
+    /\ \E n \in 1..(Len(ns[i]) - 1) :
+         /\ n <= Len(ns[j]) - 1
+         /\ SubSeq(ns[i], 1, n) = SubSeq(ns[j], 1, n)
+         /\ ~(n <= Len(ns[m]) - 1 /\ SubSeq(ns[m], 1, n) = SubSeq(ns[i], 1, n))
+RECURSIVE InlineIntV(_), InlineIntSeq(_), InlineIntEntries(_)
+InlineIntV(v) ==
+  CASE v.k = "t" -> InterleavedNames([j \in 1..Len(v.kr) |-> v.kr[j].names]) \/ InlineIntEntries(v.v)
+    [] v.k = "a" -> InlineIntSeq(v.v)
+    [] OTHER -> FALSE
+InlineIntSeq(vs) == IF vs = <<>> THEN FALSE ELSE InlineIntV(Head(vs)) \/ InlineIntSeq(Tail(vs))
+InlineIntEntries(es) == IF es = <<>> THEN FALSE ELSE InlineIntV(Head(es).val) \/ InlineIntEntries(Tail(es))
+\* within one section (a maximal run of key/value statements), or inside any inline table
+Interleaved(stmts) ==
+  \/ \E i \in 1..Len(stmts) : stmts[i].kind = "kv" /\ InlineIntV(stmts[i].val)
+  \/ \E i, j \in 1..Len(stmts) :
+       /\ i < j /\ \A x \in i..j : stmts[x].kind = "kv"
+       /\ InterleavedNames([x \in 1..(j - i + 1) |-> PathNames(stmts[i + x - 1])])
 =============================================================================
